@@ -229,6 +229,13 @@ func (s *scope) CreateScope(ctx context.Context) (Scope, error) {
 		_ = child.Close()
 		return nil, ErrProviderDisposed
 	}
+	if atomic.LoadInt32(&child.disposed) != 0 {
+		// The parent was closed after the child was added to its children and
+		// has already closed the child: it must not be tracked any more
+		s.rootProvider.scopesMu.Unlock()
+		_ = child.Close()
+		return nil, ErrScopeDisposed
+	}
 	s.rootProvider.scopes[child] = struct{}{}
 	s.rootProvider.scopesMu.Unlock()
 
